@@ -13,6 +13,7 @@ CONSTANTS
   Interleave = TRUE
   WithTraffic = FALSE
   WithUnknownStop = FALSE
+  Forms = {1}
   LocMaps <- CanonLocMaps
 INVARIANTS TypeOK NonNegativeIncrement InWindowKey InWindowLoc ExactAtLock LocSumEqKeySum Conservation RefCountMatches StartNotInFuture
 PROPERTIES Monotone
